@@ -4,7 +4,8 @@ usage: hook.py <path under /repo> <harness path under /verif/harness> [extra cfg
 import sys
 repo_file, harness = sys.argv[1], sys.argv[2]
 extra = sys.argv[3] if len(sys.argv) > 3 else "test"
-p = "/repo/" + repo_file
+import os
+p = os.path.join(os.environ.get("VERIF_REPO", "/repo"), repo_file)
 s = open(p).read()
 line = '#[path = "/verif/harness/%s"]' % harness
 if line in s:
